@@ -745,7 +745,7 @@ func runWhale(a *App, mon *Mon, seed int64, variant int) {
 	huge, _ := sdk.NewIntFromString("1000000000000000000000000000000000000000")
 	r.w.Fund("whale", whale, huge)
 	r.w.Fund("consumer1", act.Consumers[0], huge)
-	r.hist.Setup.BigFunds = append(r.hist.Setup.BigFunds, FundRec{"whale", hexs(whale), huge.String()}, FundRec{"consumer1", hexs(act.Consumers[0]), huge.String()})
+	r.hist.Setup.BigFunds = append(r.hist.Setup.BigFunds, FundRec{Name: "whale", Addr: hexs(whale), Amount: huge.String()}, FundRec{Name: "consumer1", Addr: hexs(act.Consumers[0]), Amount: huge.String()})
 	r.SetViaApp(variant%2 == 0)
 	r.Begin()
 	s := &Sc{r: r, A: act, p: p}
@@ -1332,6 +1332,8 @@ func directedJobs(prop, tier string, seed int64) []job {
 	for v := 0; v < nScripts; v++ {
 		v := v
 		add("script", func(a *App, mon *Mon) *Run { runScript(a, mon, seed, v); return mon.run })
+		// ... and once more on a chain of its own, through BeginBlock / EndBlock / Commit
+		add("script-commit", func(a *App, mon *Mon) *Run { a.nextCommit = true; runScript(a, mon, seed, v); a.nextCommit = false; return mon.run })
 	}
 	cc := cadenceCases()
 	for _, i := range sampleIdx(rng, len(cc), q(60*weight("C09", "C10", "C11", "C16", "C12"), len(cc))) {
